@@ -373,4 +373,27 @@ theorem run_sync (sh : Shape) (ops : List Op) : ∀ s, Sync s → Sync (run true
   | nil => intro s h; exact h
   | cons op ops ih => intro s h; exact ih _ (step_sync true sh s op h rfl)
 
+theorem visit_other (s : AState) (i j : Nat) (h : i ≠ j) : (visit s i).ids.getD j "" = s.ids.getD j "" := by
+  unfold visit
+  split
+  · simp only; exact getD_set_ne s.ids i j _ h
+  · rfl
+
+theorem visitAll_other (vs : List Nat) : ∀ (s : AState) (j : Nat), j ∉ vs → (visitAll s vs).ids.getD j "" = s.ids.getD j "" := by
+  induction vs with
+  | nil => intro s j _; rfl
+  | cons v vs ih =>
+    intro s j hj
+    simp only [List.mem_cons, not_or] at hj
+    show (visitAll (visit s v) vs).ids.getD j "" = _
+    rw [ih (visit s v) j hj.2, visit_other s v j (fun e => hj.1 e.symm)]
+
+theorem update_ids (s : AState) : (update s).ids = s.ids := by
+  unfold update; split
+  · rfl
+  · split <;> rfl
+
+theorem setModel_ids (s : AState) (ids : List String) : (setModel s ids).ids = ids := by
+  unfold setModel; rw [update_ids]
+
 end Cellml.Annot
